@@ -8,6 +8,13 @@ indexing (`ref_cells`), all expected numbers are computed with exact rationals (
 
 Every check function returns a list of (fid, text); a fid names the function and the clause of the property that
 failed, so that one defect always maps to the same fid and different ways of breaking a function to different ones.
+Shared list objects: besides tagged structures built from separate lists, every operation is run on structures in which
+ONE list object occurs in several places (two rows / all rows of the bins, two axes of the edges, two or more columns of
+a graph such as graph([xs, xs]) or one list for error_y_low and error_y_high, two structures of a group over the same
+lists) and on the same values in separate lists (`chk_shared`): every cell / column is multiplied exactly once, operands
+and other structures over the same lists stay as they were (a second histogram / graph object over the same lists is
+compared before and after in the ordinary scale / set_nevents / graph.scale cases too), results share no list with the
+operands.  Failures that appear only when lists are shared carry '<function>/shared-lists/<clause>'.
 Reading decisions: container types of the iterators are not compared (DESIGN section 9); a refused `add` may raise
 any exception (the property only says "only for equal edges"); for `coord_ranges` of `iter_cells` only the
 consistency of the yielded cells and the cells wholly inside / wholly outside the range are demanded."""
